@@ -1,4 +1,7 @@
 #![allow(static_mut_refs)]
+#![allow(dead_code)]
+mod props_seq;
+mod report;
 mod run;
 mod sched;
 mod seqx;
@@ -6,59 +9,110 @@ mod shm;
 mod vfs;
 mod world;
 
-use world::*;
+use report::Report;
+use serde_json::json;
 
-fn k3() -> Vec<Vec<u8>> {
-    vec![b"c".to_vec(), b"e".to_vec(), b"f".to_vec()]
+fn usage() -> ! {
+    eprintln!("usage: rdbcheck <C01..C17> <quick|thorough> | rdbcheck --replay <file> | rdbcheck selftest");
+    std::process::exit(2);
 }
 
-fn a1() -> Vec<Op> {
-    vec![
-        Op::Put(0, 0),
-        Op::Put(1, 0),
-        Op::Put(2, 0),
-        Op::Del(0),
-        Op::Del(1),
-        Op::Del(2),
-        Op::Batch(vec![(0, true), (1, true)]),
-        Op::Batch(vec![(0, true), (2, true)]),
-        Op::Batch(vec![(1, true), (2, true)]),
-        Op::Compact(None, None),
-    ]
+/// Determinism self-test: one fixed program executed twice under the same schedule must give
+/// byte-identical observation logs (results + filesystem operation log).
+fn selftest() -> Result<(), String> {
+    use std::sync::{Arc, Mutex};
+    use world::*;
+    let mut logs: Vec<String> = vec![];
+    for _ in 0..2 {
+        let out: Arc<Mutex<String>> = Arc::new(Mutex::new(String::new()));
+        let out2 = Arc::clone(&out);
+        let s = sched::Sched::new(sched::Mode::Fixed);
+        let o = run::run_once(&s, move || {
+            let mut w = World::new(vec![Cfg::parse("M2").unwrap()], props_seq::k3(), false, Checks::all());
+            let mut obs = String::new();
+            w.open().unwrap();
+            let prog = [
+                Op::Put(0, 0),
+                Op::Put(1, 0),
+                Op::Batch(vec![(0, true), (2, true)]),
+                Op::Snap,
+                Op::Del(1),
+                Op::Put(2, 0),
+                Op::Compact(None, None),
+                Op::Put(0, 0),
+                Op::Reopen(0),
+                Op::Put(1, 0),
+            ];
+            for op in prog.iter() {
+                let r = w.apply(op).and_then(|_| w.check_all());
+                obs.push_str(&format!("{:?} -> {:?}\n", op, r.map_err(|v| v.clause)));
+            }
+            obs.push_str(&format!("{:?}\n", w.db().verif_layout()));
+            w.close();
+            for op in w.fs.log() {
+                obs.push_str(&op.short());
+                obs.push('\n');
+            }
+            *out2.lock().unwrap() = obs;
+        });
+        if o != Some(run::Outcome::Ok) {
+            return Err(format!("self-test execution ended with {:?}", o));
+        }
+        logs.push(format!("{}\nsteps={}", out.lock().unwrap(), s.core().steps));
+    }
+    if logs[0] != logs[1] {
+        return Err("self-test: two executions of the same program under the same schedule differ".into());
+    }
+    if !logs[0].contains("-> Ok") || logs[0].contains("Err(") {
+        return Err(format!("self-test program reported an oracle failure:\n{}", logs[0]));
+    }
+    Ok(())
 }
 
 fn main() {
     let args: Vec<String> = std::env::args().collect();
+    if args.len() < 2 {
+        usage();
+    }
     run::install_quiet_hook();
-    if args.len() >= 2 && args[1] == "dev" {
-        let depth: usize = args.get(2).and_then(|s| s.parse().ok()).unwrap_or(3);
-        let cfg = Cfg::parse(args.get(3).map(|s| s.as_str()).unwrap_or("T300")).unwrap();
-        let workers: usize = args.get(4).and_then(|s| s.parse().ok()).unwrap_or(16);
-        let spec = seqx::SeqSpec {
-            name: "dev".into(),
-            cfgs: vec![cfg],
-            keys: k3(),
-            alphabet: a1(),
-            depth,
-            eager: true,
-            prefer_high: false,
-            checks: Checks { reads: true, scan: true, snapshots: false, layout: true, files: false, diff: false },
-            post_flush: true,
-            extra: None,
-            setup: vec![],
-        };
-        let r = seqx::explore(spec, workers, None);
-        println!(
-            "nodes={} transitions={} states={} execs={} steps={} violations={} machinery={} wall={:.1}s shape={}",
-            r.nodes, r.transitions, r.states, r.executions, r.steps, r.violations_total, r.machinery_errors, r.wall_s, r.shape
-        );
-        let mut by: std::collections::BTreeMap<String, usize> = Default::default();
-        for f in r.found.iter() {
-            *by.entry(f.clause.clone()).or_default() += 1;
+    if std::env::var("RDBCHECK_VERBOSE_PANICS").is_err() {
+        // shuttle prints "test panicked in task ..." for every failing execution: silence stderr
+        unsafe {
+            let devnull = libc::open(b"/dev/null\0".as_ptr() as *const libc::c_char, libc::O_WRONLY);
+            if devnull >= 0 {
+                libc::dup2(devnull, 2);
+            }
         }
-        println!("{:?}", by);
-        for f in r.found.iter().take(8) {
-            println!("{:?} {} :: {}", f.ops, f.clause, f.detail);
+    }
+    if args[1] == "selftest" {
+        match selftest() {
+            Ok(()) => {
+                println!("selftest ok");
+                return;
+            }
+            Err(e) => {
+                println!("MACHINERY-ERROR: {}", e);
+                std::process::exit(2);
+            }
         }
+    }
+    if args.len() < 3 {
+        usage();
+    }
+    let tier = args[2].as_str();
+    if tier != "quick" && tier != "thorough" {
+        usage();
+    }
+    if let Err(e) = selftest() {
+        let mut rep = Report::new(&args[1], tier, "model_checking");
+        rep.machinery.push(e);
+        rep.cov("states", json!(0));
+        rep.finish();
+    }
+    match args[1].as_str() {
+        "C01" => props_seq::c01(tier),
+        "C07" => props_seq::c07(tier),
+        "C10" => props_seq::c10(tier),
+        _ => usage(),
     }
 }
